@@ -303,8 +303,10 @@ def check_join(ctx, prog):
                 continue
             m += 1
             ctx.analysed(f)
-            loops = [s_ for s_ in ir.walk_stmts(f['body']) if s_.get('k') == 'for']
-            calls = [e for lp in loops for e in ir.stmt_exprs(lp) if e.get('k') == 'call' and (e.get('fn') or '').split('::')[-1] == callee]
+            loops = [s_ for s_ in ir.walk_stmts(f['body']) if s_.get('k') in ('for', 'while', 'do')]
+            calls = [e for lp in loops for e in ir.stmt_exprs(lp) if e.get('k') == 'call' and (e.get('fn') or e.get('pq') or '').split('::')[-1] == callee]
+            # the loop must be bounded by the member array (its length / end pointer), not by a constant
+            bounded_by_members = any(any(w.get('k') == 'mem' and w.get('f') == '_threads' for w in walk_expr(q.expand(f, lp.get('c') or {}))) or lp.get('cv') or any(w.get('k') == 'mem' and w.get('f') == '_threads' for w in walk_expr((lp.get('init') or {}).get('vars', [{}])[0].get('init') or {})) if lp.get('init') and lp['init'].get('k') == 'decl' else any(w.get('k') == 'mem' and w.get('f') == '_threads' for w in walk_expr(q.expand(f, lp.get('c') or {}))) for lp in loops)
             ctx.check(bool(loops) and bool(calls), 'C13.join', f['pq'], 'ThreadGroup::%s:applies to every member' % name, fwhere(f), 'loop over _threads calling %s()' % callee,
                       'ThreadGroup::%s does not call %s() on every member thread' % (name, callee))
     ctx.floor('C13.join ThreadGroup', m, 2)
